@@ -211,17 +211,17 @@ type c20Case struct {
 	K string `json:"k"` // route | direct | doc | kind | kinddec
 
 	// route, direct
-	Method     string   `json:"method,omitempty"`
-	Upgrade    []string `json:"upgrade"`
-	Accept     []string `json:"accept"`
-	Connection bool     `json:"connection,omitempty"` // also send `Connection: Upgrade`
-	Extra      [][]string `json:"extra,omitempty"`    // further request headers the property does not mention
+	Method     string     `json:"method,omitempty"`
+	Upgrade    []string   `json:"upgrade"`
+	Accept     []string   `json:"accept"`
+	Connection bool       `json:"connection,omitempty"` // also send `Connection: Upgrade`
+	Extra      [][]string `json:"extra,omitempty"`      // further request headers the property does not mention
 	// Prior: the document the SAME *NIP11 value held when it was requested once before; the
 	// configuration was then changed in place to Doc and requested again (obs is the second answer)
-	Prior *c20Doc `json:"prior,omitempty"`
-	Doc        *c20Doc  `json:"doc"`                  // route: nil = no NIP11 configured
-	HasDefault bool     `json:"has_default,omitempty"`
-	Obs        *c20Obs  `json:"obs,omitempty"`
+	Prior      *c20Doc `json:"prior,omitempty"`
+	Doc        *c20Doc `json:"doc"` // route: nil = no NIP11 configured
+	HasDefault bool    `json:"has_default,omitempty"`
+	Obs        *c20Obs `json:"obs,omitempty"`
 
 	// doc
 	Marshal *string `json:"marshal,omitempty"`
